@@ -20,6 +20,9 @@ Definition vm_sp_init : Z := (0)%Z.
 Definition vm_iter_checks : list (Z * cmpop) := [(1, CGe); (2, CGe); (1, CGe); (1, CGe); (1, CGe); (1, CGe)].
 (* iter_array_next, iter_dict_next, iter_int_range_next, iter_int_enum_next, iter_string_set_next, iter_text_string_set_next *)
 
+(* the slots each iterator writes after its room test: `stack->items[stack->sp++]` stores on the longest path *)
+Definition vm_iter_pushes : list Z := [2; 3; 2; 2; 2; 2].
+
 (* exec.c clock read: `if (context->timeout > 0ULL && ++cycle OP N) { elapsed...; if (elapsed_time OP2 context->timeout) ...; cycle = R; }` *)
 Definition vm_check_op : cmpop := CEq.
 Definition vm_check_cycles : Z := (100)%Z.
